@@ -60,6 +60,8 @@ def reads_only(c):
 
 
 IMMUTABLE_ATTRS = {"shape", "ndim", "size", "dtype", "itemsize", "nbytes", "name", "__name__"}
+# attributes that are counts by their name (`row_count`, `_array_length`): numbers, nobody's storage
+_NUMBER_ATTR_SUFFIXES = ("_count", "_length", "_size", "_depth")
 
 
 def _np_tail(fn):
@@ -114,6 +116,18 @@ FRESH_METHODS = {"tolist", "sum", "mean", "min", "max", "any", "all", "nonzero",
                  "strftime", "read", "readline", "readlines", "write", "group", "groups", "span", "match", "search", "fullmatch", "findall",
                  "sub", "as_integer_ratio", "isoformat", "array_length", "stack_depth", "get_atom_count", "get_bond_count", "get_symbols",
                  "get_alphabet", "get_annotation_categories", "score_matrix", "shape_3d"}
+
+
+_RETURNS = None
+
+
+def repository_returns():
+    """{function name | .method name: {"params": [...], "pos": [...], "self": bool}} from localnames.json (`__returns__`)"""
+    global _RETURNS
+    if _RETURNS is None:
+        from . import localnames
+        _RETURNS = localnames.table().get("__returns__", {})
+    return _RETURNS
 
 
 def _first_or_keyword(c):
@@ -243,7 +257,7 @@ def roots2(e, al=None, local_callables=(), on_call=None, holds=None):
             # lowered Cython `&x` is `+x`: a pointer into x
             return r(x.operand) if isinstance(x.op, ast.UAdd) and isinstance(x.operand, (ast.Name, ast.Subscript, ast.Attribute)) else (set(), set())
         if isinstance(x, ast.Attribute):
-            if x.attr in IMMUTABLE_ATTRS or named_constant(x):
+            if x.attr in IMMUTABLE_ATTRS or x.attr.endswith(_NUMBER_ATTR_SUFFIXES) or named_constant(x):
                 return set(), set()
             if al is None and isinstance(x.value, ast.Name) and x.value.id in ("self", "cls"):
                 # the fields of the instance are told apart (one level): `self._annot[k] = v` does not touch what `self.coord` is
@@ -267,8 +281,23 @@ def roots2(e, al=None, local_callables=(), on_call=None, holds=None):
                 ans = on_call(x)
                 if ans is not None:
                     return set(ans), set()
-            kind = call_kind(x, local_callables)
             every = list(x.args) + [k.value for k in x.keywords]
+            # a function / method of the repository: what ITS return value may be (effects.return_aliases of the reference tree)
+            ent = None
+            if isinstance(x.func, ast.Name) and x.func.id not in local_callables and x.func.id not in _BUILTIN_NAMES:
+                ent = repository_returns().get(x.func.id)
+            elif isinstance(x.func, ast.Attribute) and not (call_name(x) or "").startswith(("np.", "numpy.")) \
+                    and x.func.attr not in VIEW_METHODS and x.func.attr != "astype" and x.func.attr != "copy":
+                ent = repository_returns().get("." + x.func.attr)
+                if ent is not None and x.func.attr in FRESH_METHODS and not ent["self"] and not ent["params"]:
+                    ent = None
+            if ent is not None and not any(isinstance(a, ast.Starred) for a in x.args) and not any(k.arg is None for k in x.keywords):
+                ps = [r(x.args[i]) for i in ent["pos"] if i < len(x.args)]
+                ps += [r(k.value) for k in x.keywords if k.arg in ent["params"]]
+                if ent["self"] and isinstance(x.func, ast.Attribute):
+                    ps.append(r(x.func.value))
+                return elem(join(ps)) if ps else (set(), set())
+            kind = call_kind(x, local_callables)
             if kind == "fresh":
                 # constructors of the repository (`Annotation(features)`, `dict(k=x)`-like keyword holders) keep what they are given
                 cn_ = x.func.id if isinstance(x.func, ast.Name) else x.func.attr if isinstance(x.func, ast.Attribute) else ""
